@@ -358,7 +358,7 @@ class ConfigYaml(Harness):
 def harnesses(tier):
     hs = [Hdf(1, 2), Hdf(2, 1), ConfigYaml(), FixedWidth(), TextSpecial(), TextFiles(CorrData, 1, 1, vmax=1000), TextFiles(RedshiftData, 2, 2), MetaYaml()]
     if tier == "thorough":
-        hs += [Hdf(2, 2), Hdf(1, 3, full_only=True), TextFiles(HistData, 3, 2), TextFiles(CorrData, 2, 3), TextFiles(CorrData, 1, 2, vmax=1000)]
+        hs += [Hdf(2, 2), Hdf(1, 3, full_only=True), TextFiles(HistData, 3, 2), TextFiles(CorrData, 3, 2), TextFiles(CorrData, 1, 2, vmax=1000)]
     hs += [Hdf(1, 2, wrong="swap"), TextFiles(CorrData, 1, 1, wrong="tight")]
     return hs
 
